@@ -89,6 +89,7 @@ class Ctx:
         self.apalache = []
         self.cmds = []
         self.ntlc = 0
+        self.skipped = 0
 
     def sub(self, name):
         d = os.path.join(self.dir, name)
@@ -198,6 +199,9 @@ def validate_shard(ctx, module, path, timeout, xmx):
     fails, done = [], None
     for ln in out.splitlines():
         ln = ln.strip()
+        if ln.startswith('"SKIP '):
+            ctx.skipped += 1
+            continue
         m = FAIL_RE.match(ln)
         if m:
             fails.append((int(m.group(1)), m.group(2)))
@@ -266,6 +270,8 @@ def validate(ctx, module, summ, sigfn, timeout=1800, xmx="3g", par=8):
         evs = read_ndjson(s)
         for line, reason in fails:
             e = evs[line - 1]
+            if e.get("panic") == "skipped-after-panic":
+                continue          # the history already ended with a reported panic
             hist = [x for x in evs if x.get("h") == e.get("h")]
             hist.sort(key=lambda x: x.get("i", 0))
             # the history up to and including the failing step
@@ -394,6 +400,7 @@ def finish(ctx, level, rule, trace_module=None, sigfn=None, assumptions=None, ex
         apalache=ctx.apalache,
         notes=ctx.notes,
         tlc_invocations=ctx.ntlc,
+        trace_events_skipped_by_spec=ctx.skipped,
     )
     if extra_cov:
         cov.update(extra_cov)
